@@ -1016,6 +1016,10 @@ impl TensorChain {
             )));
         }
 
+        // One commit at a time from pre-image to append: a failed commit restores
+        // the pre-image, which must not predate another commit's block.
+        let _commit_guard = self.chain.commit_lock.lock();
+
         let snapshot = self
             .graph
             .store()
